@@ -173,6 +173,15 @@ CHECKS['C11'] = {
     'note': 'Trusted: shapely semantics (A6); float32 rounding of boxes (A2); continuous geometry beyond the grid is not decided.',
 }
 
+CHECKS['C10'] = {
+    'level': 'other',
+    'technique': 'partial: bounded numeric contract of the real crop engine on a finite grid of baselines (0.75 px tolerance) + structural/arithmetical obligation on the interpolant probe range (when contracts/cropping.py is present)',
+    'text': ('BOUNDED numeric: coordinate map of the configured height, width = length x scale, columns uniform from first to last baseline point, rows linear from ascender to '
+             'descender and perpendicular to the baseline, fast path == general path, shift equivariance, no blank fallback for non-degenerate baselines in orders 0/1/2; degenerate '
+             'lines fall back to a blank image of the configured height, never an error - on integer baselines of 2..5 points x steps x slopes (within 60 degrees) x offsets x size variants.'),
+    'note': 'Trusted: cv2.remap, scipy/numpy interpolation (A6); continuous geometry beyond the grid is not decided; trigonometry is not reasoned about.',
+}
+
 NOT_APPLICABLE = {
     'C20': ('equality up to round-off of float tensors produced by torch C++ kernels through module-resident caches across calls: no contract '
             'within reach can state it over reals, no finite domain makes a bounded check exhaustive; a random differential test would be a different technique (DESIGN.md §6)'),
